@@ -936,7 +936,11 @@ class SC:
         toks.append((key, s))
         return f'\x02{len(toks) - 1}|{spec}\x03'
 
-    def __repr__(s): return f'SC<{s.p.show(CTX.atoms)}>'
+    def __repr__(s):
+        try:
+            return f'SC<{s.p.show(CTX.atoms)}>'
+        except Exception:
+            return 'SC<value of an earlier path>'
 
     def is_const(s): return s.p.is_const()
 
